@@ -138,6 +138,11 @@ pub fn apply_dev(core: &Core, dev: &Value) {
 
 /// Execute one request letter; returns the trace event.
 pub fn do_step(rig: &ServerRig, step: &Value, rng: &mut Rng) -> Value {
+    do_step_ex(rig, step, rng).0
+}
+
+/// As do_step, plus what the peer read, receive by receive: (bytes, number of descriptors).
+pub fn do_step_ex(rig: &ServerRig, step: &Value, rng: &mut Rng) -> (Value, Vec<(Vec<u8>, usize)>) {
     let code = step["c"].as_u64().unwrap() as u32;
     let nr = step["nr"].as_bool().unwrap_or(false);
     // SET_BACKEND_REQ_FD's handler method returns (): it cannot fail
@@ -205,20 +210,21 @@ pub fn do_step(rig: &ServerRig, step: &Value, rng: &mut Rng) -> Value {
     let (chunks, eof) = raw_drain(&rig.peer);
     let (msgs, extra) = split_messages(&chunks);
     close_chunk_fds(&chunks);
+    let raw: Vec<(Vec<u8>, usize)> = chunks.iter().map(|(b, f)| (b.clone(), f.len())).collect();
     let calls = rig.core.take_calls();
     // discard anything the server did not consume so the next step starts at a boundary
     if leftover > 0 {
         let (c2, _) = raw_drain(&rig.srv_dup);
         close_chunk_fds(&c2);
     }
-    json!({
+    (json!({
         "ev": "req", "c": code, "nr": nr, "h": h, "var": var, "v": bits(v),
         "shape": step["shape"].as_str().unwrap_or(""),
         "flags": b.flags, "size": b.size, "blen": b.body.len(), "nfds": fds.len(), "fdids": fdids,
         "args": b.args, "hv": hv, "sent": sent_ok, "seg": seg, "cut": cut, "fdseg": fdseg, "mlen": bytes.len(),
         "hang": res.starts_with("hang"), "res": res, "calls": calls, "ncalls": calls.len(),
         "out": msgs, "nout": msgs.len(), "out_extra": extra, "leftover": leftover, "eof": eof,
-    })
+    }), raw)
 }
 
 pub fn run(cases: &[Value], trace: &mut Trace, seed: u64) {
